@@ -1,4 +1,5 @@
 import SynapModel.Layers
+import SynapModel.Modules
 import Mathlib.Algebra.Field.Basic
 import Mathlib.Algebra.Order.Field.Basic
 import Mathlib.Algebra.CharZero.Defs
@@ -195,10 +196,84 @@ theorem dropout_linear (p t : α) (xs vs us : List α) (h1 : xs.length = us.leng
 
 end Dropout
 
+/-! ### Attachment is not a mode switch
+
+The mode of a layer is the flag `train()` / `eval()` last wrote into it: directly, or through a parent that held the layer in its
+registry AT THE TIME OF THAT CALL (`Synap.Modules.setTraining`, theorem `Props.C12.setTraining_reaches`).  Assigning the layer as an
+attribute of a parent, `register_module`, handing it to a container constructor, re-attaching it elsewhere or detaching it leave the
+flag of every module as it is — so a layer put in eval mode and then attached to a (training-mode) model stays in eval mode. -/
+section Attach
+open Synap.Modules
+
+theorem updMod_training (w : World) (m : Nat) (f : Mod → Mod) (hf : ∀ M, (f M).training = M.training) (k : Nat) :
+    ((updMod w m f).mods[k]?).map Mod.training = (w.mods[k]?).map Mod.training := by
+  simp only [updMod, List.getElem?_map, List.getElem?_zipIdx]
+  cases w.mods[k]? with
+  | none => rfl
+  | some M => by_cases h : k = m <;> simp [h, hf]
+
+/-- **`register_module` leaves every mode as it is** (the registered module's, the parent's, everybody else's). -/
+theorem register_keeps_modes (w : World) (m : Nat) (name : String) (j k : Nat) :
+    ((regMod w m name j).mods[k]?).map Mod.training = (w.mods[k]?).map Mod.training := by
+  unfold regMod
+  refine updMod_training w m _ ?_ k
+  intro M; rfl
+
+/-- **Attribute assignment leaves every mode as it is**, whatever is assigned (a module: attach; `None` / a plain value / a
+    parameter: detach). -/
+theorem attach_keeps_modes (w : World) (m : Nat) (name : String) (v : Val) (k : Nat) :
+    ((setAttr w m name v).mods[k]?).map Mod.training = (w.mods[k]?).map Mod.training := by
+  cases v with
+  | mod j =>
+    simp only [setAttr]
+    refine (register_keeps_modes _ m name j k).trans (updMod_training w m _ ?_ k)
+    intro M; rfl
+  | par j =>
+    simp only [setAttr, regPar]
+    refine (updMod_training _ m _ ?_ k).trans (updMod_training w m _ ?_ k) <;> intro M <;> rfl
+  | other =>
+    simp only [setAttr]
+    refine updMod_training w m _ ?_ k
+    intro M; rfl
+
+theorem foldl_keeps_modes {β : Type} (g : World → β → World)
+    (hg : ∀ (w : World) (x : β) (k : Nat), ((g w x).mods[k]?).map Mod.training = (w.mods[k]?).map Mod.training)
+    (l : List β) (w : World) (k : Nat) :
+    ((l.foldl g w).mods[k]?).map Mod.training = (w.mods[k]?).map Mod.training := by
+  induction l generalizing w with
+  | nil => rfl
+  | cons x l ih => rw [List.foldl_cons, ih, hg]
+
+/-- **A container built around existing modules** (`Sequential(a, b, …)`) starts in training mode and leaves the mode of each of
+    its members — and of every other existing module — as it is. -/
+theorem container_keeps_modes (w : World) (ks : List Nat) :
+    (((sequential w ks).1.mods[(sequential w ks).2]?).map Mod.training = some true) ∧
+    ∀ k : Nat, k < w.mods.length → ((sequential w ks).1.mods[k]?).map Mod.training = (w.mods[k]?).map Mod.training := by
+  have hnew : ∀ k : Nat, k < w.mods.length → (newMod w).1.mods[k]? = w.mods[k]? := by
+    intro k hk; simp [newMod, List.getElem?_append_left hk]
+  have hfold : ∀ k : Nat, ((sequential w ks).1.mods[k]?).map Mod.training = ((newMod w).1.mods[k]?).map Mod.training := by
+    intro k
+    simp only [sequential]
+    exact foldl_keeps_modes _ (fun (w : World) (x : Nat × Nat) (k : Nat) => by obtain ⟨a, b⟩ := x; exact register_keeps_modes w _ _ a k) _ _ k
+  refine ⟨?_, fun k hk => by rw [hfold, hnew k hk]⟩
+  have : (sequential w ks).2 = w.mods.length := by simp [sequential, newMod]
+  rw [this, hfold]
+  simp [newMod]
+
+end Attach
+
 /-! ### Non-vacuity: a concrete rational batch -/
 instance : HasSqrt ℚ := ⟨fun x => x⟩   -- any function will do for the state theorems
 
 example : (bnForward (α := ℚ) ⟨some (1/2), 0, true⟩ (bnInit ⟨some (1/2), 0, true⟩ 1 false) [[1, 3]]).2.rm = [1] := by
   decide +kernel
+
+/-- `bn.eval()`, then `model = Sequential(fc, bn)` (a fresh container, in training mode): the layer is still in eval mode; a later
+    `model.train()` reaches it -/
+example : (let w := (Synap.Modules.newMod (Synap.Modules.newMod Synap.Modules.World.empty).1).1      -- m0 = bn, m1 = fc
+           let w := Synap.Modules.setTraining false (Synap.Modules.fuelOf w) w 0
+           let w := (Synap.Modules.sequential w [1, 0]).1
+           (w.mods.map Synap.Modules.Mod.training, (Synap.Modules.setTraining true (Synap.Modules.fuelOf w) w 2).mods.map Synap.Modules.Mod.training))
+    = ([false, true, true], [true, true, true]) := by decide
 
 end Props.C13
